@@ -387,7 +387,14 @@ def duck_specs(rng, c):
     nq, np_ = c["nq"], c["np"]
     ident = dict(qperm=list(range(nq)), mperm=[list(range(np_)) for _ in range(nq)], wscale=1.0)
     out = [("mode-order", dict(ident, mperm=[rand_perm(rng, np_, 3 if qi == 0 else 0) for qi in range(nq)])),
-           ("weight-scale", dict(ident, wscale=rng.choice([2.0, 0.5, 3.0, 1.0 / 7, rng.uniform(0.05, 40.0)])))]
+           ("weight-scale", dict(ident, wscale=rng.choice([2.0, 0.5, 3.0, 1.0 / 7, rng.uniform(0.05, 40.0)]))),
+           # "all positive weight scale factors": also factors that make the weights very small / very large, and
+           # factors that put an absolute threshold (1e-8, 1e-12, 1e-5) BETWEEN the smallest and the largest weight
+           ("weight-scale", dict(ident, wscale=10.0 ** rng.uniform(-14.0, 8.0)))]
+    ws = [abs(w) for w in c["weights"]]
+    if min(ws) < max(ws):
+        thr = rng.choice([1e-8, 1e-8, 1e-12, 1e-5])
+        out.append(("weight-scale", dict(ident, wscale=thr / math.sqrt(min(ws) * max(ws)))))
     if nq >= 3:
         out.append(("qpoint-order", dict(ident, qperm=rand_perm(rng, nq, 1))))
         out.append(("combined", dict(qperm=rand_perm(rng, nq, 1), wscale=rng.uniform(0.05, 40.0),
@@ -558,7 +565,7 @@ def run(ctx):
     quick = ctx.tier == "quick"
     ctx.rule = ("(a) duck-typed Longitudinal/OffDiagonal objects (nonshear_harness: 1-5 q-points, 3/6/9 modes, garbage in the "
                 "Gamma-acoustic slots, unequal weights) re-presented by mode permutations, q-point(+weight) permutations, "
-                "weight factors in (0.05,40) and combinations; ") + ctx.rule
+                "weight factors in (0.05,40), 1e-14..1e8 and factors placing 1e-5/1e-8/1e-12 between the smallest and largest weight, and combinations; ") + ctx.rule
     ctx.trusted += ["IEEE rounding: 1e-12 relative between presentations of one contribution object, 8e-9 model vs "
                     "implementation (as C01), 1e-8 between Calculator runs (measured worst values in the evidence)",
                     "QHA (qha 1.1.3: free energy, grid refinement, v2p) and scipy/numpy fits are exercised by the "
